@@ -59,6 +59,16 @@ func Profile(name string, seed int64, tier string) HistOpts {
 		o.Malformed = 2
 		o.CheckTx = false
 		o.Warmup = 112 // the grace period of the start height ends after block 120: the generated blocks straddle its end
+	case "prune": // more than 100 candidates: the weakest are removed at the first recalculation while moves towards them are in flight
+		w := DefaultWeights()
+		for _, t := range []tx.TxType{tx.TypeDelegate, tx.TypeUnbond, tx.TypeMoveStake, tx.TypeDeclareCandidacy} {
+			w[t] = 60
+		}
+		o.Weights = w
+		o.Gen = GenOpts{Candidates: 104, ValidatorN: 4}
+		o.CheckTx = false
+		o.Malformed = 2
+		o.TxPerBlk = 3
 	case "governance": // many votes for near heights while the validator set keeps changing
 		w := DefaultWeights()
 		for _, t := range []tx.TxType{tx.TypeSetHaltBlock, tx.TypeVoteUpdate, tx.TypeVoteCommission} {
